@@ -216,23 +216,29 @@ def shard_container_scramble(desc, rec):
         if m.live:
             code = m.types()[0]
             outcome = []
+            store_back = i % 2 == 1 and code in rc.CODE_TYPES     # odd cases: read a block and store it back unchanged
             for p in (p1, p2):
                 try:
                     with Tdf(p).allow_write() as t:
-                        t.remove_block(BlockType(code))
+                        if store_back:
+                            t.replace_block(t.get_block(BlockType(code)))
+                        else:
+                            t.remove_block(BlockType(code))
                     outcome.append("ok")
                 except Exception as ex:
                     outcome.append(f"{type(ex).__name__}: {str(ex)[:80]}")
             if outcome[0] != outcome[1]:
                 rec.violation("C12", "container:mutation-outcome-depends-on-dontcare-bytes",
-                              f"remove_block on the clean file: {outcome[0]}; on the file differing only in don't-care bytes: {outcome[1]}", case)
+                              f"{'store-back' if store_back else 'remove_block'} on the clean file: {outcome[0]}; on the file differing only in don't-care bytes: {outcome[1]}", case)
                 os.unlink(p1); os.unlink(p2)
                 continue
             try:
                 w1, w2 = _tdf_view(p1), _tdf_view(p2)
                 rec.count("oracle:C12.after-mutation-independent-of-dontcare")
-                a1 = [e[:7] for e in w1["entries"] if e[0] != 0]
-                a2 = [e[:7] for e in w2["entries"] if e[0] != 0]
+                rec.count("c12:twin-mutation:" + ("store-back" if store_back else "remove"))
+                # (a block that was read and stored back carries the time of reading as its dates: not compared)
+                a1 = [e[:5] if store_back else e[:7] for e in w1["entries"] if e[0] != 0]
+                a2 = [e[:5] if store_back else e[:7] for e in w2["entries"] if e[0] != 0]
                 if a1 != a2 or w1["header"][:2] != w2["header"][:2]:
                     rec.violation("C12", "container:mutation-result-depends-on-dontcare-bytes", f"{a1} != {a2}", case)
                 for (t1, s1, x1), (t2, s2, x2) in zip(w1["blocks"], w2["blocks"]):
